@@ -134,7 +134,7 @@ func (r *EngineRunner) flipSweep(cfg []string, maxFlips int, rng *Rng) string {
 			truncs++
 		}
 	}
-	opened, openErr, getErr, stale, live := 0, 0, 0, 0, 0
+	opened, openErr, getErr, stale, live, merged := 0, 0, 0, 0, 0, 0
 	latest := r.ref.m
 	inspect := func(db *kv.DB, what string) {
 		for _, k := range db.ListKeys() {
@@ -257,9 +257,23 @@ func (r *EngineRunner) flipSweep(cfg []string, maxFlips int, rng *Rng) string {
 				}
 			}
 			inspect(db, what)
+			if whileOpen && fi%2 == 1 {
+				// the damaged database merges, is closed and opened again: a merge must not launder the damage
+				// (rewrite damaged bytes under a fresh checksum); it may fail, and the Open after it may fail
+				merged++
+				_ = db.Merge()
+				_ = db.Close()
+				db2, err := kv.Open(parseOpts(cfg, dst))
+				if err != nil {
+					return
+				}
+				inspect(db2, what+", then Merge, Close and Open")
+				_ = db2.Close()
+				return
+			}
 			_ = db.Close()
 		}()
 		_ = os.RemoveAll(root)
 	}
-	return fmt.Sprintf("done # flips=%d bytes=%d opened=%d open_errors=%d get_errors=%d older_value_served=%d flipped_while_open=%d truncations=%d", len(flips), total, opened, openErr, getErr, stale, live, truncs)
+	return fmt.Sprintf("done # flips=%d bytes=%d opened=%d open_errors=%d get_errors=%d older_value_served=%d flipped_while_open=%d merged_after_damage=%d truncations=%d", len(flips), total, opened, openErr, getErr, stale, live, merged, truncs)
 }
